@@ -561,6 +561,27 @@ OPAQUE_FNS = {"log", "exp", "sqrt", "xlogy", "gammaln", "lgamma", "erf", "erfc",
 MODULE_NAMES = {"tensorlib", "default_backend", "np", "numpy", "math", "jnp", "tb", "torch", "tf", "special", "scipy", "jax", "tfp", "self"}
 
 
+def is_memoising(fnode):
+    for d in getattr(fnode, "decorator_list", []):
+        name = (A.dotted(d.func) if isinstance(d, ast.Call) else A.dotted(d)) or ""
+        if name.split(".")[-1] in ("lru_cache", "cache", "cached_property"):
+            return True
+    return False
+
+
+def memo_key(v):
+    """argument identity as functools sees it: values by value, objects by identity, paths by value"""
+    if isinstance(v, (str, bool)) or v is None:
+        return ("v", v)
+    if isinstance(v, Poly):
+        return ("p", str(v))
+    if isinstance(v, (tuple, list)):
+        return ("t", tuple(memo_key(x) for x in v))
+    if isinstance(v, Obj) and v.name == "path" and isinstance(v.attrs.get("p"), str):
+        return ("path", v.attrs["p"])
+    return ("id", id(v))
+
+
 class Interp:
     def __init__(self, env=None, selfattrs=None, region=None, methods=None, cls_name=None, max_steps=200000, externals=None):
         self.externals = externals or {}  # call name -> f(args, kwargs) modelling a callee outside the fragment
@@ -586,6 +607,19 @@ class Interp:
         return None
 
     def call_function(self, fnode, args, kwargs=None, bind_self=False):
+        if is_memoising(fnode) and not getattr(self, "_in_memo", False):
+            # functools.lru_cache / cache / cached_property on a method or function: one result per (object, arguments) for the life
+            # of the process -- later calls never run the body again, whatever changed in between
+            memo = self.externals.setdefault("__memo__", {})
+            key = (fnode.name, getattr(fnode, "lineno", 0), id(self.env.get("self")) if bind_self else None, memo_key(list(args)), memo_key(sorted((kwargs or {}).items())))
+            if key in memo:
+                return memo[key]
+            self._in_memo = True
+            try:
+                memo[key] = self.call_function(fnode, args, kwargs, bind_self)
+            finally:
+                self._in_memo = False
+            return memo[key]
         sub = Interp(self.env, self.selfattrs, self.region, self.methods, self.cls_name, externals=self.externals)
         sub.thresholds_seen = self.thresholds_seen
         sub.attr_sets = self.attr_sets
